@@ -302,6 +302,32 @@ fn chunk_strategy(p: &GenParams) -> BoxedStrategy<Vec<Op>> {
             o
         })
         .boxed();
+    // a big memtable full of writes is re-opened with a tiny memtable: the WAL replay produces a
+    // dozen or more level-0 files at once, and the writes that follow run into the level-0
+    // slowdown and stop triggers while the first compaction is still running
+    let l0pile = (
+        (select(vec![100_000usize, 4 * 1024 * 1024]), prop::collection::vec((sel(), 8u8..14, 150u32..400), 2..5)),
+        (select(vec![512usize, 700]), select(vec![400u64, 1024, 2048]), select(vec![128usize, 1024, 4096]), any::<bool>()),
+        prop::collection::vec((sel(), 200u32..400), 3..10),
+    )
+        .prop_map(move |((big, fills), (memtable, file, block, reuse), after)| {
+            let mut o = vec![];
+            if reopens {
+                o.push(Op::Reopen(Cfg { memtable: big, file, block, reuse }));
+            }
+            for (start, n, len) in fills {
+                o.push(Op::Fill { start, n, val: Val { len, compressible: false } });
+            }
+            if reopens {
+                o.push(Op::Reopen(Cfg { memtable, file, block, reuse }));
+            }
+            for (k, len) in after {
+                o.push(Op::Put(k, Val { len, compressible: false }));
+            }
+            o.push(Op::WaitIdle);
+            o
+        })
+        .boxed();
     prop_oneof![
         10 => random,
         2 => ladder,
@@ -309,6 +335,7 @@ fn chunk_strategy(p: &GenParams) -> BoxedStrategy<Vec<Op>> {
         2 => disjoint,
         2 => straddle,
         2 => boundary,
+        1 => l0pile,
     ]
     .boxed()
 }
